@@ -5,6 +5,7 @@ import (
 	"fmt"
 	"strings"
 	"time"
+	. "verifharness/hx"
 
 	"github.com/protolambda/zrnt/eth2/beacon/common"
 	"github.com/protolambda/zrnt/eth2/configs"
@@ -16,7 +17,7 @@ import (
 	"github.com/protolambda/ztyp/view"
 )
 
-func init() { props["C19"] = runC19 }
+func main() { Main("C19", runC19) }
 
 // boundary values of the uint64 domain
 func boundaryU64(r *Rng, nrand int) []uint64 {
